@@ -129,6 +129,7 @@ class Summaries:
         for t_ in ("u8", "u16", "u32", "u64", "u128", "usize"):
             E["core::num::<impl %s>::wrapping_sub" % t_] = self.nowrap_probe
             E["core::num::<impl %s>::wrapping_add" % t_] = self.nowrap_probe
+            E["core::num::<impl %s>::wrapping_mul" % t_] = self.nowrap_probe
         E["core::hint::must_use"] = self.identity
         E["core::hint::black_box"] = self.identity
         E["core::mem::MaybeUninit::<T>::uninit"] = self.uninit
@@ -760,6 +761,8 @@ class Summaries:
             bits = callee["locals"][0].get("bits", 64)
             if callee["path"].endswith("wrapping_sub"):
                 ok = A[0] - B[1] >= 0 or st.diff_le(b, a, 0)
+            elif callee["path"].endswith("wrapping_mul"):
+                ok = A[1] * B[1] < (1 << bits)
             else:
                 ok = A[1] + B[1] < (1 << bits)
             self.ctx.oblige("wrap-free: %s" % callee["path"].rsplit("::", 1)[-1], ok, inst, self.span(t), "operands %s and %s; %s" % (A, B, why))
